@@ -241,6 +241,8 @@ pub struct World {
     /// RLIMIT_NOFILE for every monorail process of this world (a resource fault: descriptor exhaustion
     /// must never change an answer silently)
     pub nofile: Option<u64>,
+    /// working directory of every monorail invocation, relative to the root (None = the root itself)
+    pub cwd_rel: Option<String>,
 }
 
 impl Drop for World {
@@ -268,6 +270,7 @@ impl World {
             knobs: vec![],
             config_name: "Monorail.json".into(),
             nofile: None,
+            cwd_rel: None,
         };
         let helper = bin_dir().join("vhelper");
         for t in &spec.targets {
@@ -385,7 +388,10 @@ impl World {
         }
         cmd.arg("-f").arg(self.root.join(&self.config_name));
         cmd.args(args);
-        cmd.current_dir(&self.root);
+        match &self.cwd_rel {
+            Some(d) => cmd.current_dir(self.root.join(d)),
+            None => cmd.current_dir(&self.root),
+        };
         if let Some(n) = self.nofile {
             use std::os::unix::process::CommandExt;
             unsafe {
